@@ -46,6 +46,75 @@ def step (st : Unit) (j : Json) : Unit × Json :=
             ("val_batches", natssToJson (iterVal b s.val)),
             ("val_len", Json.num (JsonNumber.fromNat (valLen b s.val))),
             ("has_validation", Json.bool (s.val.length > 0))])))
+    | "init_user" =>
+        -- SimpleBatcher with (possibly) user supplied train/val indices
+        let n ← natField j "n"
+        let ratio ← floatOfJson (← field j "ratio")
+        let mode := modeOfString (← strField j "mode")
+        let perm ← natList (← field j "perm")
+        let b ← natField j "b"
+        let orders ← (← arrField j "orders").toList.mapM natList
+        let optList (k : String) : Except String (Option (List Nat)) :=
+          match j.getObjVal? k with
+          | .ok .null => pure none
+          | .ok v => do pure (some (← natList v))
+          | .error _ => pure none
+        let ut ← optList "train"
+        let uv ← optList "val"
+        if b == 0 then throw "b=0" else
+        match initSplit n ratio mode perm ut uv with
+        | .error .valueError => pure ((), errJson "ValueError")
+        | .ok s =>
+          pure ((), okJson (Json.mkObj [("train", natsToJson s.train), ("val", natsToJson s.val),
+            ("epochs", Json.arr (orders.map (fun o => natssToJson (epoch b o))).toArray),
+            ("len", Json.num (JsonNumber.fromNat (numBatches b s.train))),
+            ("val_batches", natssToJson (iterVal b s.val)),
+            ("val_len", Json.num (JsonNumber.fromNat (valLen b s.val))),
+            ("has_validation", Json.bool (s.val.length > 0))]))
+    | "history" =>
+        -- a sequence of reconstruct calls on one object (Model/Batcher.lean `reconstruct`): the generator's
+        -- draws come from a table indexed by call position, the per-batch losses of each run from the
+        -- recorded real run; the model does the reset / schedule / loss bookkeeping
+        let n ← natField j "n"
+        let ratio ← floatOfJson (← field j "ratio")
+        let mode := modeOfString (← strField j "mode")
+        let seed : Option Nat := match j.getObjVal? "seed" with
+          | .ok .null => none
+          | .ok v => v.getNat?.toOption
+          | .error _ => none
+        let table ← (← arrField j "table").toList.mapM natList
+        let tableA := table.toArray
+        let draw : Gen → List Nat → List Nat := fun g l => if h : g.pos < tableA.size then tableA[g.pos] else l
+        let runs ← arrField j "runs"
+        let init : Recon Nat Float := { rng := { rngSeed := seed, gen := { seed := seed.getD 0, pos := 0 } },
+                                         params := 0, initParams := 0, iterLosses := [], valLosses := [] }
+        let mut st := init
+        let mut outs : Array Json := #[]
+        for r in runs do
+          let reset ← boolField r "reset"
+          let iters ← natField r "iters"
+          let b ← natField r "b"
+          if b == 0 then throw "b=0"
+          let tl := (← floatList (← field r "train_losses")).toArray
+          let vt ← (← arrField r "val").toList.mapM (fun e => do
+            let a ← e.getArr?
+            if a.size != 3 then throw "val entry" else
+            pure ((← a[0]!.getNat?), (← a[1]!.getNat?), (← floatOfJson a[2]!)))
+          let start := if reset then 0 else st.params
+          let stepFn : Nat → List Nat → Nat × Float := fun p _ => (p + 1, tl.getD (p - start) 0.0)
+          let valFn : Nat → List Nat → Float := fun p B =>
+            match vt.find? (fun e => e.1 == p - start && e.2.1 == B.headD 0) with
+            | some e => e.2.2
+            | none => 0.0
+          let cfg : RunCfg := { reset := reset, numIters := iters, b := b, n := n, ratio := ratio, mode := mode }
+          let out := reconstruct draw stepFn valFn cfg st
+          st := out.1
+          outs := outs.push (Json.mkObj [
+            ("schedule", Json.arr (out.2.map natssToJson).toArray),
+            ("iter_losses", Json.arr (st.iterLosses.map floatToJson).toArray),
+            ("val_losses", Json.arr (st.valLosses.map floatToJson).toArray),
+            ("pos", Json.num (JsonNumber.fromNat st.rng.gen.pos))])
+        pure ((), okJson (Json.arr outs))
     | "subdivide" =>
         let n ← natField j "n"
         let nb ← optNat j "nb"
